@@ -16,7 +16,7 @@ import random
 from vf import core
 
 THEOREMS = ["rw_pack_layout", "rw_overflow_refuted", "rw_exclusion", "rw_word_inv", "rw_try_nonblocking_legal",
-            "rw_single_consumer", "rw_release_admits", "rw_no_stranded_partial"]
+            "rw_single_consumer", "rw_release_admits", "rw_no_stranded"]
 RD, WR, TRYRD, TRYWR, UNLOCK = 1, 2, 3, 4, 5
 T1_SOURCES = ["src/fiber_manager.c", "src/fiber.c", "src/fiber_rwlock.c", "src/fiber_mutex.c",
               "src/fiber_spinlock.c", "src/hazard_pointer.c"]
